@@ -462,7 +462,9 @@ def cases(draw, n_min=2, n_max=12):
     n = g["n"]
     return {"g": g, "w": draw(st.one_of(st.none(), G.node_weights(n))),
             "la": draw(st.one_of(st.none(), G.link_attr(n, directed))),
-            "lb": draw(st.one_of(st.none(), G.link_attr(n, directed))),
+            # signed values and zeros: an attribute is any real matrix
+            "lb": draw(st.one_of(st.none(), G.link_attr(n, directed, lo=-12,
+                                                        hi=12))),
             "ekeys": draw(st.lists(st.integers(0, 15), max_size=70))}
 
 
